@@ -76,6 +76,32 @@ func getFilteredCodeSetIfNeeded(ctx *RuntimeContext, codeSet *OpcodeSet) (*Opcod
 		return codeSet, nil
 	}
 	ctx.Option.Flag |= FieldQueryOption
+	return filteredCodeSet(codeSet, query)
+}
+
+// CompileToGetCodeSetForInterface is CompileToGetCodeSet for the value held by an interface-typed
+// field: the query of the call does not apply to it, the sub-query of the field does.
+func CompileToGetCodeSetForInterface(ctx *RuntimeContext, typeptr uintptr, query *FieldQuery) (*OpcodeSet, error) {
+	flag := ctx.Option.Flag
+	ctx.Option.Flag &^= ContextOption
+	codeSet, err := CompileToGetCodeSet(ctx, typeptr)
+	ctx.Option.Flag = flag
+	if err != nil {
+		return nil, err
+	}
+	return FilterCodeSetForInterface(ctx, codeSet, query)
+}
+
+// FilterCodeSetForInterface gives the program for the dynamic type of an interface value: filtered by
+// the query that selected the interface-typed field (its sub-query), not by the query of the call.
+func FilterCodeSetForInterface(ctx *RuntimeContext, codeSet *OpcodeSet, query *FieldQuery) (*OpcodeSet, error) {
+	if (ctx.Option.Flag&FieldQueryOption) == 0 || query == nil || len(query.Fields) == 0 {
+		return codeSet, nil
+	}
+	return filteredCodeSet(codeSet, query)
+}
+
+func filteredCodeSet(codeSet *OpcodeSet, query *FieldQuery) (*OpcodeSet, error) {
 	cacheCodeSet := codeSet.getQueryCache(query.Hash())
 	if cacheCodeSet != nil {
 		return cacheCodeSet, nil
